@@ -438,3 +438,43 @@ theorem bind_prelude_inv {α : Type} (f : FileDirective × Bytes → Py α) (d :
   | ok r => rw [hp] at h; exact ⟨r.1, r.2, rfl, h⟩
 
 end SpVerif.FileDirective
+
+namespace SpVerif.FileDirective
+open SpVerif SpVerif.CfdpHeader SpVerif.Props
+
+/-- **every strict prefix of a laid-out PDU is refused by the prelude with `ValueError`**
+    (`oct` = directive header ‖ anything, of the declared total length) -/
+theorem prelude_truncated (d : FileDirective) (wf : C05.WF d.header) (R : Bytes)
+    (hlen : (specOctets d ++ R).length = d.packetLen) (k : Nat) (hk : k < d.packetLen) :
+    prelude ((specOctets d ++ R).take k) = .error .value := by
+  have hh := (C05.C05_len d.header wf).2.1
+  have hsl := specOctets_length d wf
+  have hhl : d.headerLen = d.header.headerLen + 1 := rfl
+  unfold prelude
+  by_cases h1 : k < d.header.headerLen
+  · have e : (specOctets d ++ R).take k = (C05.Spec.octets d.header).take k := by
+      simp only [specOctets, List.append_assoc]
+      rw [List.take_append_of_le_length (by omega)]
+    rw [e, unpack_hdr_err _ _ (C05.C05_truncated d.header wf k h1)]
+    rfl
+  · have e : (specOctets d ++ R).take k
+        = C05.Spec.octets d.header ++ ((u8 d.code :: R).take (k - d.header.headerLen)) := by
+      simp only [specOctets, List.append_assoc, List.singleton_append]
+      rw [List.take_append, hh]
+      rw [List.take_of_length_le (by omega)]
+    have hu : PduHeader.unpack ((specOctets d ++ R).take k) = .ok d.header := by
+      rw [e]; exact C05.C05_roundtrip d.header wf _
+    have hkl : ((specOctets d ++ R).take k).length = k := by
+      simp only [List.length_take]; omega
+    by_cases h2 : k = d.header.headerLen
+    · rw [unpack_short _ _ hu (by omega)]; rfl
+    · rw [unpack_ok _ _ hu (by omega)]
+      simp only [bind, Except.bind, FileDirective.verify]
+      rw [verify_eq, if_pos (by rw [hkl]; exact hk)]
+
+theorem bind_prelude_truncated {α : Type} (f : FileDirective × Bytes → Py α) (d : FileDirective)
+    (wf : C05.WF d.header) (R : Bytes) (hlen : (specOctets d ++ R).length = d.packetLen) (k : Nat)
+    (hk : k < d.packetLen) : (prelude ((specOctets d ++ R).take k) >>= f) = .error .value := by
+  rw [prelude_truncated d wf R hlen k hk]; rfl
+
+end SpVerif.FileDirective
